@@ -4,7 +4,7 @@ and input sentences derived from / mutated around them.
 Grammar AST (JSON-able):
   {"rules": [{"name", "params": {"skipws"?: bool, "ws"?: str, "wsq"?: '"', "ws_first"?: bool}, "body": E}],
    "comment": regex-source | None}
-  E ::= {"k":"str","v":s} | {"k":"re","v":src} | {"k":"ref","name":R}
+  E ::= {"k":"str","v":s} | {"k":"re","v":src, "samples"?: [s] (for sources outside RES)} | {"k":"ref","name":R}
       | {"k":"seq","xs":[E]} | {"k":"alt","xs":[E]}
       | {"k":"rep","op":"?"|"*"|"+"|"#","x":E,"sep":E|None,"eol":bool}
       | {"k":"asgn","attr":a,"op":"="|"+="|"*="|"?=","rhs":E,"sep":E|None,"eol":bool}
@@ -295,6 +295,126 @@ class GrammarGen:
             alts.append({"k": "seq", "xs": [dict(x) for x in pre] + head + [cont()]})
         return {"k": "alt", "xs": alts}
 
+    # ---- one rule reached under several whitespace contexts at one position ---------------------------------
+    WS_MODES = ["noskipws", "default", "ws_blank", "ws_nl", "skipws", "eol"]
+
+    def ws_modes(self, g):
+        """Post-pass (call it after grammar(); nothing else of the generator uses it): add to grammar `g` an ordered
+        choice of 2-3 helper rules `W1 | W2 | ..` which all reach ONE target rule at the SAME input position, each under
+        another whitespace context -- the only ways the grammar language has to switch it: a rule modifier on the
+        helper ([noskipws] / [skipws] / [ws=..]), no modifier (the meta-model's context) or an `eolterm` repetition
+        around the reference.  The helpers optionally share a literal prefix (a [noskipws] helper may eat the
+        whitespace in front of it with a suppressed /\\s*/, the usual idiom) and end in a continuation of their own.
+        Target (returned as g["ws_target"]): a rule of every way a NAME can stand for an expression --
+          alias of a base type (`A: INT;`), alias of a simple match rule, alias of an alias, a simple match rule
+          (`A: /re/;` -- the rule IS the match), a base type itself, a non-terminal rule of the grammar, an alias of one.
+        The choice is hung into the top rule (before or after its body, repeated), so derived sentences run through
+        it: earlier alternatives parse the target under their context and fail later or right there, later ones ask
+        for it again at the same position."""
+        rng = self.rng
+        rules = g["rules"]
+        kinds = self.kinds
+        top = rules[0]
+        new = []          # rules to append
+        matchish = True   # the target yields a string (base type / match rule)
+        c = rng.weighted([("alias_base", 5), ("alias_match", 3), ("alias_chain", 2), ("simple", 2), ("base", 1),
+                          ("rule", 4 if len(rules) > 1 else 0), ("alias_rule", 2 if len(rules) > 1 else 0)])
+        if kinds[top["name"]] == "match" and c in ("rule", "alias_rule") and \
+                not [r for r in rules[1:] if kinds[r["name"]] == "match"]:
+            c = "alias_base"
+        if c == "alias_base":
+            tgt = "WA"
+            new.append({"name": "WA", "params": {}, "body": {"k": "ref", "name": rng.choice(BASE)}})
+        elif c == "alias_match":
+            ms = [r["name"] for r in rules[1:] if kinds[r["name"]] == "match"]
+            tgt = "WA"
+            if ms and rng.chance(0.5):
+                new.append({"name": "WA", "params": {}, "body": {"k": "ref", "name": rng.choice(ms)}})
+            else:
+                new.append({"name": "WA", "params": {}, "body": {"k": "ref", "name": "WM"}})
+                new.append({"name": "WM", "params": {}, "body": simple_match(rng)})
+        elif c == "alias_chain":
+            tgt = "WA"
+            new.append({"name": "WA", "params": {}, "body": {"k": "ref", "name": "WB"}})
+            new.append({"name": "WB", "params": {}, "body": {"k": "ref", "name": rng.choice(BASE)}})
+        elif c == "simple":
+            tgt = "WA"
+            new.append({"name": "WA", "params": {}, "body": simple_match(rng)})
+        elif c == "base":
+            tgt = rng.choice(BASE)
+        else:
+            pool = [r["name"] for r in rules[1:] if kinds[top["name"]] != "match" or kinds[r["name"]] == "match"]
+            name = rng.choice(pool)
+            matchish = kinds[name] == "match"
+            if c == "rule":
+                tgt = name
+            else:
+                tgt = "WA"
+                new.append({"name": "WA", "params": {}, "body": {"k": "ref", "name": name}})
+        for r in new:
+            self.bodies[r["name"]] = r["body"]
+            kinds[r["name"]] = "match"
+        if not matchish:
+            for r in new:
+                kinds[r["name"]] = "abstract"
+        ref = {"k": "ref", "name": tgt}
+        null = self.nullable(ref)
+        if null and tgt in self.bodies and self.bodies[tgt]["k"] == "re":
+            # a nullable regex as the target would make every helper nullable
+            self.bodies[tgt].update(v=r"\d+")
+            null = False
+        style = "match" if kinds[top["name"]] == "match" else \
+            ("common" if not matchish or kinds[top["name"]] == "abstract" else rng.choice(["match", "common", "common"]))
+        n = rng.randint(2, 3)
+        modes = rng.sample(self.WS_MODES if self.eolterm and not null else self.WS_MODES[:-1], n)
+        if all(m in ("default", "skipws") for m in modes):
+            modes[0] = "noskipws"
+        pre = lit(rng) if rng.chance(0.5) else None
+        helpers = []
+        for i, m in enumerate(modes):
+            params = {"noskipws": {"skipws": False}, "skipws": {"skipws": True}, "ws_blank": {"ws": " "},
+                      "ws_nl": {"ws": "\\n"}}.get(m, {})
+            xs = []
+            if pre is not None:
+                if m == "noskipws" and rng.chance(0.6):
+                    xs.append({"k": "re", "v": r"\s*", "sup": True, "samples": [""]})
+                xs.append(dict(pre))
+            if style == "match":
+                head = dict(ref) if m != "eol" else {"k": "rep", "op": "+", "x": dict(ref), "sep": None, "eol": True}
+            elif m == "eol" or (not null and rng.chance(0.25)):
+                head = {"k": "asgn", "attr": "v", "op": "+=", "rhs": dict(ref), "sep": None, "eol": m == "eol"}
+            else:
+                head = {"k": "asgn", "attr": "v", "op": "=", "rhs": dict(ref), "sep": None, "eol": False}
+            xs.append(head)
+            if rng.chance(0.75) or len(xs) == 1:
+                xs.append(lit(rng))
+            name = f"W{i + 1}"
+            helpers.append({"name": name, "params": params, "body": {"k": "seq", "xs": xs}})
+            self.bodies[name] = helpers[-1]["body"]
+            kinds[name] = "match" if style == "match" else "common"
+        alt = {"k": "alt", "xs": [{"k": "ref", "name": h["name"]} for h in helpers]}
+        body = top["body"]
+        front = rng.chance(0.5)
+        if kinds[top["name"]] == "abstract":
+            # an abstract rule stays a choice of references
+            alts = list(body["xs"]) if body["k"] == "alt" and not body.get("sup") else [body]
+            extra = alt["xs"]
+            top["body"] = {"k": "alt", "xs": extra + alts if front else alts + extra}
+        else:
+            if style == "match":
+                item = {"k": "rep", "op": "*", "x": alt, "sep": None, "eol": False}
+            else:
+                new.append({"name": "WS", "params": {}, "body": alt})
+                kinds["WS"] = "abstract"
+                self.bodies["WS"] = alt
+                item = {"k": "asgn", "attr": "wm", "op": "*=", "rhs": {"k": "ref", "name": "WS"}, "sep": None, "eol": False}
+            old = list(body["xs"]) if body["k"] == "seq" and not body.get("sup") else [body]
+            top["body"] = {"k": "seq", "xs": [item] + old if front else old + [item]}
+        self.bodies[top["name"]] = top["body"]
+        rules += helpers + new
+        g["ws_target"] = {"kind": c, "name": tgt, "modes": modes, "style": style}
+        return g
+
     def asgn(self, later, attrs, inrep=False):
         rng = self.rng
         attr = rng.choice(attrs)
@@ -471,7 +591,7 @@ class Deriver:
         if k == "str":
             return [e["v"]]
         if k == "re":
-            return [rng.choice(dict(RES)[e["v"]])]
+            return [rng.choice(e.get("samples") or dict(RES)[e["v"]])]
         if k == "link":
             return [rng.choice(["foo", "bar", "x1"])]
         if k == "ref":
